@@ -125,3 +125,42 @@ Lemma session_witness ft fb rp jl jd sc :
   = [OutName (ROk (T_VARCHAR, mkkw (Some 3) None None None)); OutVal (ROk (PStr [97; 98; 99]%N)); OutVal (ROk (PStr [97; 98; 99; 100]%N));
      OutName (RErr XValue); OutName (RErr XValue); OutName (ROk (T_ARRAY, mkkw None None None (Some T_VARCHAR)))].
 Proof. vm_compute. reflexivity. Qed.
+
+(* ---------- the caller's decimal context ---------- *)
+Lemma env_independent (e1 e2 : denv) (c : cast_case) :
+  (reads_env_prec c = false \/ env_prec e1 = env_prec e2) -> c07_run_env e1 c = c07_run_env e2 c.
+Proof.
+  destruct c as [[[[[col t] k] x] o] obs]. intros [H|H]; unfold c07_run_env.
+  - rewrite H. reflexivity.
+  - rewrite H. reflexivity.
+Qed.
+
+Lemma env_default (c : cast_case) : c07_run_env default_env c = c07_run c.
+Proof.
+  destruct c as [[[[[col t] k] x] o] obs]. unfold c07_run_env.
+  destruct (reads_env_prec (col, t, k, x, o, obs)) eqn:E; [|reflexivity].
+  unfold reads_env_prec in E. destruct col; [|discriminate]. destruct t; try discriminate.
+  destruct k as [l [p|] s el]; [discriminate|]. reflexivity.
+Qed.
+
+Lemma env_spec (e1 e2 : denv) (c : cast_case) :
+  ((reads_env_prec c = false \/ env_prec e1 = env_prec e2) -> c07_run_env e1 c = c07_run_env e2 c) /\
+  (reads_env_prec c = false -> c07_run_env e1 c = c07_run c) /\
+  c07_run_env default_env c = c07_run c.
+Proof.
+  split; [apply env_independent|split; [|apply env_default]].
+  destruct c as [[[[[col t] k] x] o] obs]. intros H. unfold c07_run_env. rewrite H. reflexivity.
+Qed.
+
+(* the witness of F-C07-6 (fixed 056ea2a) under the context Emin = -5, prec = 9: exact at scale 21;
+   a DECIMAL column without precision under ExtendedContext (prec 9) is DECIMAL(9, 6) *)
+Lemma env_witness :
+  let w := [48; 46; 49; 50; 51; 52; 53; 54; 55; 56; 57; 48; 49; 50; 51; 52; 53]%N in
+  c07_run_env (mkenv 9 999999 (-5) 0 1 false) (false, T_DECIMAL, nokw, PStr w, notab, RErr XOther)
+    = ROk (PDecimal (DFin false 123456789012345000000 (-21))) /\
+  reads_env_prec (true, T_DECIMAL, nokw, PStr [49; 46; 53]%N, notab, RErr XOther) = true /\
+  c07_run_env (mkenv 9 999999 (-999999) 0 0 false) (true, T_DECIMAL, nokw, PStr [49; 46; 53]%N, notab, RErr XOther)
+    = ROk (PDecimal (DFin false 1500000 (-6))) /\
+  c07_run_env default_env (true, T_DECIMAL, nokw, PStr [49; 46; 53]%N, notab, RErr XOther)
+    = ROk (PDecimal (DFin false 1500000000000000000000 (-21))).
+Proof. vm_compute. repeat split; reflexivity. Qed.
